@@ -5,6 +5,7 @@
 import Edn.Spec.Renders
 import Edn.Proofs.Fuel
 import Edn.Proofs.Str
+import Edn.Proofs.CompleteStrCharAux2
 
 namespace Edn.Proofs
 open Edn.Model Edn.Spec
@@ -12,10 +13,26 @@ open Edn.Model Edn.Spec
 theorem reads_str (cfg : Cfg) (opts : Opts) (d : Nat) (sp dn : Bytes) (h : StrContent cfg sp dn)
     (hne : cfg.exp = true → sp ≠ []) :
     Reads cfg opts d (.str hdr0 sp (sp.contains 0x5C)) (0x22 :: (sp ++ [0x22])) := by
-  sorry
+  intro dm rest cl f _ hf
+  obtain ⟨f', rfl⟩ : ∃ f', f = f' + 1 := ⟨f - 1, by omega⟩
+  have hs : (0x22 :: (sp ++ [0x22])) ++ rest = 0x22 :: (sp ++ 0x22 :: rest) := by simp
+  rw [hs, readValue_quote]
+  have hnb : ¬ (cfg.exp = true ∧ ∃ t, (0x22 :: (sp ++ 0x22 :: rest)) = 0x22 :: 0x22 :: 0x22 :: 0x0A :: t) := by
+    rintro ⟨he, t, ht⟩
+    obtain ⟨c, u, rfl, hc⟩ := strContent_head_ne_quote cfg sp dn h (hne he)
+    simp only [List.cons_append, List.cons.injEq, true_and] at ht
+    exact hc ht.1
+  refine ⟨_, readString_literal' { cfg := cfg, opts := opts } sp dn rest cl h hnb, rfl⟩
 
 theorem reads_char (cfg : Cfg) (opts : Opts) (d : Nat) (body : Bytes) (cp : Nat) (h : CharBody body cp) (hcp : cp ≤ 0x10FFFF) :
     Reads cfg opts d (.char hdr0 cp) (0x5C :: body) := by
-  sorry
+  intro dm rest cl f hr hf
+  obtain ⟨f', rfl⟩ : ∃ f', f = f' + 1 := ⟨f - 1, by omega⟩
+  have hb := charBody_append_isEmpty body rest cp h
+  rw [List.cons_append, readValue_backslash, readCharacter_eq]
+  simp only [List.tail_cons, hb, Bool.false_eq_true, if_false,
+    charBody_ok { cfg := cfg, opts := opts } body rest cp h hr,
+    show ¬ cp > 0x10FFFF from by omega, term_delim hr]
+  exact ⟨_, rfl, rfl⟩
 
 end Edn.Proofs
